@@ -35,10 +35,13 @@ def run(chk):
     r3(chk, prog)
     r4(chk, prog, f)
     r6(chk, prog, f)
+    from .. import numrules
+    numrules.rule_valid_numbers(chk, prog, "C01.R7")
     chk.undecided_clauses += [
         "the numeric conversions themselves (strtod / strtoll / strtoull are trusted; R6 decides only that their results reach the node unmodified)",
         "UTF-8 bit arithmetic of the \\\\u decoder (only the branch structure and byte counts are decided)",
-        "literal matching (strncmp on the token text) and number token syntax: tokens are opaque to the automaton",
+        "literal matching (strncmp on the token text): literal tokens are opaque to the automaton (number tokens are decided by R7, with "
+        "strtod / strtoll / strtoull taken at their ISO C contracts)",
         "equality of whole parsed documents with an independent parser's result",
         "duplicate member handling (decided under C06: replace keeps the entry)",
     ]
